@@ -22,7 +22,8 @@ Inductive lop :=
 | LBindOk                  (* one round of the bind loop: bound *)
 | LAccept | LConnEnd
 | LServeExit               (* accept has failed on the closed socket, all handlers have returned: Serve returns *)
-| LStop | LDrain.
+| LStop | LDrain
+| LAcceptTemp.             (* accept fails with a temporary error (EMFILE, ...): the loop waits a little and tries again *)
 
 Definition is_phase (a b : sphase) : bool :=
   match a, b with PNotStarted, PNotStarted | PBinding, PBinding | PServing, PServing | PReturned, PReturned => true | _, _ => false end.
@@ -67,6 +68,7 @@ Definition lstep (fixed : bool) (s : lstate) (o : lop) : lstate :=
        handlers return (LConnEnd) *)
     mk (phase s) (begun s) true (ldraining s) false (lconns s) (done_closed s) (if fixed then begun s else true)
   | LDrain => mk (phase s) (begun s) (lstopped s) true false (lconns s) (done_closed s) (stop_waits s)
+  | LAcceptTemp => s
   end.
 
 Definition linit : lstate := mk PNotStarted false false false false 0 false false.
